@@ -40,6 +40,9 @@ func init() {
 		var out []*vexplore.Scenario
 		out = append(out, &vexplore.Scenario{Name: "req-slow-peer-hist", Mode: "hist", Reset: kit.ResetGlobals, Cfg: vsched.Config{Race: true},
 			Body: func() { c04.SlowPeerHist(map[bool]int{false: 5, true: 6}[full]) }})
+		// the retry timer of a request lands while its reply is being taken in (timers may fire early)
+		out = append(out, &vexplore.Scenario{Name: "drf:req-retry-timer-vs-reply", Mode: "sched", Bound: b, Reset: kit.ResetGlobals,
+			Cfg: vsched.Config{Race: true, EarlyTimers: true}, Body: c04.SchedTimerVsReply})
 		// data-race freedom of the multi-socket / device / fan-out / close scenarios of the other
 		// properties: the same bodies, race-instrumented build, happens-before detector on
 		drf := map[string]func(){}
